@@ -253,6 +253,27 @@ theorem errCurr_sat {α : Type} {s : PState σ} {Q : α → PState σ → Prop} 
   · rename_i t ht
     simp [ErrOK, (hs.p1 t ht).1]
 
+/-- the loop `for { tryConsume(tys) }`: it gives no token back, and its passes run out only when the fuel does (every pass
+consumes a token) -/
+theorem swallowAll_sat {n : Nat} {tys : List Nat} (htys : cTypeEOF ∉ tys) {Q : Unit → PState σ → Prop} {F : Prop} :
+    ∀ (k : Nat) (s : PState σ), Inv ops B I s →
+      (∀ s', Inv ops B I s' → m μ s' ≤ m μ s → q s ≤ q s' → Q () s') →
+      ((n ≤ m μ s ∨ k ≤ m μ s) → F) →
+      Sat (swallowAll ops n tys k s) Q (ErrOK B) F
+  | 0, s, _, _, hF => hF (Or.inr (Nat.zero_le _))
+  | k + 1, s, hs, hk, hF => by
+    unfold swallowAll
+    simp only [sat_bind]
+    apply tryConsume_sat hl hs htys
+    · intro s' hs' hm hq _
+      simp only [sat_pure]
+      exact hk s' hs' hm hq
+    · intro tk s' hs' hlt hq1 _ _
+      exact swallowAll_sat htys k s' hs' (fun s'' h1 h2 h3 => hk s'' h1 (by omega) (by have := q_le_one s; omega))
+        (fun h => hF (h.elim (fun h => Or.inl (by omega)) (fun h => Or.inr (by omega))))
+    · intro h
+      exact hF (Or.inl h)
+
 theorem consume_sat {n : Nat} {tys : List Nat} {s : PState σ} {Q : Unit → PState σ → Prop} {F : Prop}
     (hs : Inv ops B I s) (htys : cTypeEOF ∉ tys)
     (hk : ∀ s', Inv ops B I s' → m μ s' < m μ s → q s' = 1 → Q () s')
